@@ -470,8 +470,53 @@ class Inventory:
                 if np in ("std::path::Path::read_dir", "std::fs::read_dir", "walkdir::WalkDir::new") and st[2]:
                     return self.classify(st[2][0], depth + 1)
         if t[0] == "arg":
+            # the item parameter of a closure handed to an iterator adaptor (`read_dir(..)?.try_for_each(|entry| ..)`):
+            # the items are those of the adaptor's receiver
+            recv = self._adaptor_receiver(t[1], t[2])
+            if recv is not None and depth < 10:
+                return self._iter_source(recv, depth + 1)
             return ("ClosureArg", t[1], t[2], t[3])
         return ("Unknown", term_str(t)[:80])
+
+    _ITEM_ADAPTORS = re.compile(r"^std::iter::Iterator::(try_for_each|for_each|map|filter_map|filter|flat_map|inspect|all|any|find|find_map|"
+                                r"take_while|skip_while|map_while|position)$")
+    _ACC_ADAPTORS = re.compile(r"^std::iter::Iterator::(fold|try_fold)$")
+
+    def adaptor_of(self, closure_path):
+        """(adaptor callee path, receiver term) of the single iterator-adaptor call the closure is created for, if any."""
+        sites = self.prog.ctor_sites.get(closure_path, [])
+        if len(sites) != 1:
+            return None
+        pb, blk_i, idx, rv = sites[0]
+        holder = pb.blocks[blk_i].stmts[idx].place.local
+        for blk, t in pb.calls():
+            if t.callee is None or len(t.args) < 2:
+                continue
+            for ai, a in enumerate(t.args):
+                if a.place is not None and a.place.local == holder and not a.place.proj and (
+                        self._ITEM_ADAPTORS.match(t.callee.path) or self._ACC_ADAPTORS.match(t.callee.path)):
+                    return t.callee.path, self.sym.of_operand(pb, t.args[0])
+        return None
+
+    def _adaptor_receiver(self, closure_path, local):
+        """Symbolic term of the iterator whose items reach parameter `local` of the closure, if the closure is created for
+        exactly one iterator-adaptor call."""
+        sites = self.prog.ctor_sites.get(closure_path, [])
+        if len(sites) != 1:
+            return None
+        pb, blk_i, idx, rv = sites[0]
+        st = pb.blocks[blk_i].stmts[idx]
+        holder = st.place.local
+        for blk, t in pb.calls():
+            if t.callee is None or len(t.args) < 2:
+                continue
+            for ai, a in enumerate(t.args):
+                if a.place is not None and a.place.local == holder and not a.place.proj:
+                    if self._ITEM_ADAPTORS.match(t.callee.path) and ai == 1 and local == 2:
+                        return self.sym.of_operand(pb, t.args[0])
+                    if self._ACC_ADAPTORS.match(t.callee.path) and ai == 2 and local == 3:
+                        return self.sym.of_operand(pb, t.args[0])
+        return None
 
 
 def class_root(c):
